@@ -907,8 +907,11 @@ LABEL:
 			panic(syntaxError(tok.pos, "unexpected else"))
 		}
 		p.removeLastAncestor()
-		if _, ok := p.parent().(*ast.If); !ok {
+		if n, ok := p.parent().(*ast.If); !ok {
 			panic(syntaxError(tok.pos, "unexpected else at end of statement"))
+		} else if n.Else != nil {
+			// The closed block is already the "else" block.
+			panic(syntaxError(tok.pos, "unexpected else"))
 		}
 		p.cutSpacesToken = true
 		tok = p.next()
